@@ -13,3 +13,11 @@ func learned(s *solver.Solver) []string  { return nil }
 
 func traceOn(s *solver.Solver, max, every int, quiet, withConstrs bool) {}
 func traceSnaps(s *solver.Solver) []Snap                                { return nil }
+
+func pbSetOp(op int, w1 []int, c1 int, w2 []int, c2 int, model, trail []int, a, b int) (int, int) {
+	panic("hooks off: VerifPBSetOp is not available")
+}
+
+func explainUnsat(clauses [][]int, nb int, units []int, tagged []bool) bool {
+	panic("hooks off: explain.VerifUnsat is not available")
+}
